@@ -218,7 +218,7 @@ fn judge(o: &Result<Out, String>) -> Option<(String, serde_json::Value)> {
 }
 
 pub fn run(cfg: &Cfg, rep: &mut Report) {
-  let total = cfg.n(200_000, 30_000_000);
+  let total = cfg.n(800_000, 30_000_000);
   let max_len = cfg.n(10, 24);
   let mut rng = Rng::new(cfg.seed ^ 0xC12);
   for i in 0..total {
@@ -277,7 +277,7 @@ pub fn run(cfg: &Cfg, rep: &mut Report) {
   }
 
   // thread part: producer threads and late subscribers on BehaviorSubject<_, SubjectThreads> (baton scheduler)
-  let n = cfg.n(6_000, 600_000);
+  let n = cfg.n(12_000, 600_000);
   super::thr::systematic_families(cfg, rep, 0xC12A, &[1, 1, 1], &|s, _| {
     for t in s.threads.iter_mut() {
       t.retain(|op| !matches!(op, super::thr::TOp::Complete(_) | super::thr::TOp::Error(_) | super::thr::TOp::Unsub(_) | super::thr::TOp::UnsubSubject));
